@@ -5,7 +5,7 @@ import ast
 
 import z3
 
-from .interp import Frame, Unsupported
+from .interp import seq_concat, Frame, Unsupported
 from .tys import (NONE, SV, PyList, PyTuple, Ref, TAbs, TAny, TBool, TDict, TEnum, TInt, TNone, TObj, TOpt, TRec,
                   TSeq, TSet, TStr, TTuple, TUnion, Ty, VClass, VBuiltin)
 
@@ -227,7 +227,7 @@ class SpecBuiltins:
         if first is None:
             first = it.seq_of(args[0])
         terms = [it.coerce(a, first.ty).term for a in args]
-        return SV(first.ty, z3.Concat(*terms) if len(terms) > 1 else terms[0])
+        return SV(first.ty, seq_concat(*terms) if len(terms) > 1 else terms[0])
 
     def s_sub(self, it, node, fr):
         (s, lo, n), fr = self._args(it, node, fr)
@@ -277,7 +277,7 @@ class SpecBuiltins:
             if isinstance(a, (PyTuple, PyList)):
                 a = it.coerce(a, it.val_ty(a))
             terms.append(a.term)
-        f = z3.Function("g_" + name, *[t.sort() for t in terms], rty.sort())
+        f = z3.Function(name, *[t.sort() for t in terms], rty.sort())
         return SV(rty, f(*terms))
 
     def s_view_of(self, it, node, fr):
